@@ -173,36 +173,80 @@ def toy_unwrap(sign, header, body, trailer, signature):
     return plain
 
 
-class ScriptedProvider:
-    """Stands for dpapi_ng._rpc._auth.AuthenticationProvider: scripted legs + the toy seal."""
-    def __init__(self, script=(), header_len=16, provider=10):
-        from dpapi_ng._rpc import SecurityProvider
-        self.script = list(script)          # [(out_token, complete_after)]
+class _Buf:
+    def __init__(self, data):
+        self.data = data
+
+
+class _Res:
+    def __init__(self, bufs):
+        self.buffers = [_Buf(b) for b in bufs]
+
+
+class ToyContext:
+    """What `spnego.client(...)` is to AuthenticationProvider: scripted legs + the toy seal, behind pyspnego's iov interface."""
+    def __init__(self, owner):
+        self.o = owner
         self.complete = False
-        self.fed = []
-        self.header_len = header_len
-        self.provider = SecurityProvider(provider)
-        self.wrap_calls = []
-        self.unwrap_calls = []
 
     def step(self, in_token=None):
-        from dpapi_ng._rpc import SecTrailer, AuthenticationLevel
-        self.fed.append(in_token)
-        if not self.script:
+        self.o.fed.append(in_token)
+        if not self.o.script:
             raise AuthError("no more legs")
-        tok, done = self.script.pop(0)
+        tok, done = self.o.script.pop(0)
         self.complete = done
-        return SecTrailer(type=self.provider, level=AuthenticationLevel.RPC_C_AUTHN_LEVEL_PKT_PRIVACY, pad_length=0, context_id=0, auth_value=tok)
+        return tok
 
-    def get_empty_trailer(self, pad_length):
-        from dpapi_ng._rpc import SecTrailer, AuthenticationLevel
-        return SecTrailer(type=self.provider, level=AuthenticationLevel.RPC_C_AUTHN_LEVEL_PKT_PRIVACY, pad_length=pad_length, context_id=0, auth_value=b"\x00" * self.header_len)
+    def query_message_sizes(self):
+        return type("Sizes", (), {"header": self.o.header_len})()
 
-    def wrap(self, header, body, trailer, sign_header):
-        self.wrap_calls.append((bytes(header), bytes(body), bytes(trailer), bool(sign_header)))
-        sealed, sig = toy_wrap(sign_header, bytes(header), bytes(body), bytes(trailer), self.header_len)
-        return b"".join([header, sealed, trailer, sig])
+    @staticmethod
+    def _parts(iov):
+        import spnego.iov
+        (t0, header), body, (t2, trailer), last = iov
+        if t0 != t2 or t0 not in (spnego.iov.BufferType.sign_only, spnego.iov.BufferType.data_readonly):
+            raise AuthError("unexpected iov buffer types")
+        return t0 == spnego.iov.BufferType.sign_only, bytes(header), bytes(body), bytes(trailer), last
 
-    def unwrap(self, header, body, trailer, signature, sign_header):
-        self.unwrap_calls.append((bytes(header), bytes(body), bytes(trailer), bytes(signature), bool(sign_header)))
-        return toy_unwrap(sign_header, bytes(header), bytes(body), bytes(trailer), bytes(signature))
+    def wrap_iov(self, iov, encrypt=True, qop=None):
+        sign, header, body, trailer, _ = self._parts(iov)
+        if not encrypt:
+            raise AuthError("request not sealed")
+        self.o.wrap_calls.append((header, body, trailer, sign))
+        sealed, sig = toy_wrap(sign, header, body, trailer, self.o.header_len)
+        return _Res([header, sealed, trailer, sig])
+
+    def unwrap_iov(self, iov):
+        sign, header, body, trailer, last = self._parts(iov)
+        signature = bytes(last[1])
+        self.o.unwrap_calls.append((header, body, trailer, signature, sign))
+        return _Res([header, toy_unwrap(sign, header, body, trailer, signature), trailer, signature])
+
+
+def _provider_class():
+    """ScriptedProvider IS dpapi_ng's AuthenticationProvider (its step / get_empty_trailer / wrap / unwrap run unchanged);
+    only the pyspnego context underneath is the toy one."""
+    from dpapi_ng._rpc._auth import AuthenticationProvider
+    from dpapi_ng._rpc import SecurityProvider
+
+    class ScriptedProvider(AuthenticationProvider):
+        def __init__(self, script=(), header_len=16, provider=10):
+            self.script = list(script)          # [(out_token, complete_after)]
+            self.fed = []
+            self.header_len = header_len
+            self.wrap_calls = []
+            self.unwrap_calls = []
+            self.ctx = ToyContext(self)
+            self.provider = SecurityProvider(provider)
+            self._header_length = 0
+    return ScriptedProvider
+
+
+_PROVIDER = None
+
+
+def ScriptedProvider(*a, **kw):
+    global _PROVIDER
+    if _PROVIDER is None:
+        _PROVIDER = _provider_class()
+    return _PROVIDER(*a, **kw)
